@@ -198,6 +198,23 @@ def t_inplace_alias(n):
     r |= {2}
     return a.tolist(), l, d, t, u, x, y, sorted(s), a is b, l is m
 
+def t_views_and_copies(n):
+    a = np.zeros(n)
+    b = np.ascontiguousarray(a, dtype=np.double)       # the same object
+    b[0] = 5.0
+    c = np.asarray(a)                                   # the same object
+    c[1] = 6.0
+    d = np.array(a)                                     # a copy
+    d[2] = 7.0
+    e = a[1:]                                           # a view
+    e[0] += 1.0
+    f = np.ascontiguousarray([1.0, 2.0])                # a new array
+    g = a.copy()
+    g[0] = -1.0
+    h = np.ascontiguousarray(a[::2])                    # not contiguous: a copy
+    h[0] = -2.0
+    return a.tolist(), b is a, c is a, d is a, d.tolist(), f.tolist(), g.tolist(), h.tolist()
+
 def t_while_else(n):
     k = 0
     while k < n:
@@ -217,7 +234,7 @@ CALLS = [
     ("t_comprehensions", ([3, 1, 2],)), ("t_loops", (5,)), ("t_lambda_star", ([1, 2, 3],)), ("t_condexpr", (2,)), ("t_condexpr", (0,)),
     ("t_strings", ("name", 2.5)), ("t_try", (0,)), ("t_try", (3,)), ("t_closure", (4,)), ("t_classes", ()), ("t_dicts_sets", (["a", "b", "a"],)),
     ("t_numpy", (3,)), ("t_math", (2.5,)), ("t_slices", ([4, 2, 7, 1],)), ("t_assert_global", (2,)), ("t_kwargs", ((1, 2), {"c": 3, "e": 5})),
-    ("t_while_else", (3,)), ("t_inplace_alias", (3,)), ("t_chained", (1, 2, 3)), ("t_chained", (1, 3, 2)),
+    ("t_while_else", (3,)), ("t_inplace_alias", (3,)), ("t_views_and_copies", (4,)), ("t_chained", (1, 2, 3)), ("t_chained", (1, 3, 2)),
 ]
 
 CYTHON_CORPUS = r"""
@@ -227,7 +244,7 @@ CYTHON_CORPUS = r"""
 cimport cython
 cimport numpy as np
 import numpy as np
-from libc.math cimport log, sqrt, exp, fabs, floor, pow
+from libc.math cimport log, sqrt, exp, fabs, floor, pow, fmax, fmin, ceil
 from libcpp.vector cimport vector
 
 ctypedef double real_t
@@ -301,6 +318,13 @@ def t_cy_basic(n):
     return (y, j // 2, -7 / 2, -7 % 3, <int> 2.9, <double> j / 2, sq(z), cp(1.5), cp(1.5, 3), np.asarray(m)[1].tolist(), a.shape[0], view.shape[0],
             fabs(-1.5), floor(2.7), pow(2.0, 3.0), sqrt(16.0), 1 if x < 1 else 0)
 
+def t_cy_libm_unsigned(n):
+    cdef unsigned u = 0
+    cdef unsigned w = n
+    cdef int i = 0
+    cdef double v = 2.0
+    return (fmax(1.5, -2.0), fmin(1.5, -2.0), fmax(-1.0, -1.0), ceil(2.1), floor(-2.1), u - 1, w - 1, i - 1, v ** (i - 1), 1.0 / (v ** (w - 1)))
+
 def t_cy_class():
     a = Acc(1.0)
     s = Sub()
@@ -334,6 +358,7 @@ def t_cy_nogil_with(n):
 
 CYTHON_EXPECT = {
     "t_cy_basic": ((4,), (12.0, 1, -3, -1, 2, 1.5, 4.0, 3.0, 4.5, [0.0, 0.25, 1.0, 2.25], 4, 4, 1.5, 2.0, 8.0, 4.0, 1)),
+    "t_cy_libm_unsigned": ((3,), (1.5, -2.0, -1.0, 3.0, -3.0, 4294967295, 2, -1, 0.5, 0.25)),
     "t_cy_class": ((), ((7.0 / 3, 3, 3), (3.0, 2, 2), 3, 2, 2, True)),
     "t_cy_vector": ((), (16.5, 0, 2, 7, 0)),
     "t_cy_nogil_with": ((5,), 10),
